@@ -272,9 +272,7 @@ def _run(ctx, eff, own_tables, watch):
     # round 4: order independence against fresh twins, link-attribute slots, coverage
     watch.context = "order/attr oracles"
     for cname, mk in SPECS.items():
-        spec = mk()
-        if spec.get("only_summary"):
-            continue
+        spec = mk()             # incl. InteractingNetworks (node-list recipes)
         for _ in range(1 if quick else 3):
             c06_attr.order_oracle(ctx, cname, spec, used, quick)
     c06_attr.attr_oracle(ctx, eff, SPECS, used, quick)
